@@ -32,6 +32,7 @@ def run(ctx):
         "span arithmetic itself is not decided.")
     ctx.trusted = ["rustc nightly MIR"]
     quote_span(ctx, lexpr)
+    span_order(ctx, lexpr)
     column_unit(ctx, lexpr)
     r = ctx.rule("R-LOOKAHEAD-POS", "IoRead::position accounts for the pending lookahead byte; SliceRead::peek does not advance")
     pos = lexpr.fn(IO + "position")
@@ -294,3 +295,94 @@ def column_unit(ctx, lexpr):
                     "and from a str/slice" % (len(only_s), ", ".join("0x%02X" % b for b in only_s[:6]),
                                               ", ".join("0x%02X" % b for b in only_l[:6]) or "none"), it.loc())
     r.floor("byte-values", 256)
+
+
+def span_order(ctx, lexpr):
+    """For every kind of token: the start of the datum's span is the position read before the token is lexed, and
+    its end is read after everything that belongs to the datum has been consumed (the element list of a byte
+    vector, the closing delimiter of a list or vector).  The quote shorthand, whose overall span ends with the
+    quoted datum, is covered by R-QUOTE-SPAN."""
+    from .. import lex
+    r = ctx.rule("R-SPAN-ORDER", "for each token kind the span handed to the Datum constructor starts before the token "
+                                 "and ends after the last thing consumed for that datum")
+    P = "parse::Parser::<R>::"
+    f = lexpr.fn(P + "next_datum")
+    tok = lexpr.adts.get("parse::Token")
+    if f is None or not tok:
+        r.anchor_missing("next_datum / parse::Token")
+        return
+    consuming = {P + "parse_byte_list", P + "parse_list_meta", P + "parse_vector_meta", P + "end_seq", P + "parse_token",
+                 P + "parse_whitespace"}
+    n = 0
+    for v in tok["variants"]:
+        if v["name"] == "Quotation":
+            continue
+        pay = [0x29 if fl["ty"] == "u8" else Opq("payload") for fl in v["fields"]]
+        tv = Adt("parse::Token", v["idx"], pay, v["name"])
+
+        def hook(S, fn, bb, t, args, path, tv=tv):
+            nm = F.callee_names(t)
+            c = t["callee"]
+            if "parse::read::Read::position" in nm:
+                k = sum(1 for e in path.events if e[0] == "pos")
+                path.events.append(("pos", k))
+                return ("skip", Opq("pos#%d" % k))
+            if nm & consuming or P + "parse_list_meta" in nm:
+                path.events.append(("consume", sorted(nm)[0]))
+                if P + "parse_whitespace" in nm:
+                    return ("skip", Adt(RES, 0, [Adt(OPT, 1, [65])]))
+                if P + "parse_token" in nm:
+                    return ("skip", Adt(RES, 0, [tv]))
+                if P + "end_seq" in nm:
+                    return ("skip", Adt(RES, 0, [sim.Tup([])]))
+                if P + "parse_list_meta" in nm:
+                    return ("skip", Adt(RES, 0, [Adt(OPT, 1, [sim.Tup([UNK, UNK])])]))
+                if P + "parse_vector_meta" in nm:
+                    return ("skip", Adt(RES, 0, [sim.Tup([UNK, UNK])]))
+                return ("skip", Adt(RES, 0, [UNK]))
+            tg = lexpr.fn(c.get("resolved") or c.get("path") or "")
+            if tg is not None and tg.file.endswith("datum.rs") and sum(1 for ty in t.get("arg_tys", []) if ty.endswith("read::Position")) >= 2:
+                poss = [S._deref(a, path) for a, ty in zip(args, t.get("arg_tys", [])) if ty.endswith("read::Position")]
+                path.events.append(("datum-ctor", tg.path, [repr(x) for x in poss]))
+                return ("skip", UNK)
+            return None
+
+        S = sim.Sim([lexpr], hooks={"call": hook}, inline=lambda a, b: lex.helper_inline(lexpr)(a, b) or (b.kind == "closure" and b.owner == f.path),
+                    max_paths=6000, max_depth=5)
+        bad = None
+        seen_ctor = False
+        try:
+            for p in S.run(f):
+                if p.end != "return":
+                    continue
+                evs = [e for e in p.events if e[0] in ("pos", "consume", "datum-ctor")]
+                for i, e in enumerate(evs):
+                    if e[0] != "datum-ctor":
+                        continue
+                    seen_ctor = True
+                    start, end = e[2][0], e[2][-1]
+                    ms, me = re.match(r"<pos#(\d+)>$", start), re.match(r"<pos#(\d+)>$", end)
+                    if not ms or not me:
+                        bad = "the span of Token::%s is not built from two read positions (%s, %s)" % (v["name"], start, end)
+                        continue
+                    order = [x for x in evs[:i]]
+                    idx_start = next(j for j, x in enumerate(order) if x == ("pos", int(ms.group(1))))
+                    idx_end = next(j for j, x in enumerate(order) if x == ("pos", int(me.group(1))))
+                    tok_idx = [j for j, x in enumerate(order) if x[0] == "consume" and x[1].endswith("parse_token")]
+                    last_consume = max([j for j, x in enumerate(order) if x[0] == "consume"] or [-1])
+                    if tok_idx and idx_start > tok_idx[0]:
+                        bad = "the start of a Token::%s datum is read after the token has been lexed" % v["name"]
+                    elif idx_end < last_consume:
+                        bad = ("the end of a Token::%s datum is read before %s has consumed the rest of it: the span stops "
+                               "short of the datum's text" % (v["name"], order[last_consume][1].rsplit("::", 1)[-1]))
+        except sim.Limit:
+            bad = "path limit"
+        n += 1
+        if bad:
+            r.violation(f.path, "span-order:%s" % v["name"], "next_datum: %s" % bad, f.loc())
+        elif not seen_ctor:
+            r.violation(f.path, "span-order-undetermined:%s" % v["name"],
+                        "next_datum: no Datum constructor taking two positions is reached for Token::%s" % v["name"], f.loc())
+        else:
+            r.ok("Token::%s: span = [position before the token, position after the last consumption]" % v["name"], f)
+    r.floor("token-kinds", n)
